@@ -665,8 +665,12 @@ class Injector:
                 real(buf, *args[1:], **kwargs)
                 data = buf.getvalue()
                 k = {"mid-empty": 0, "mid-half": len(data) // 2, "mid-last-byte": len(data) - 1}[phase]
-                with open(path, "wb") as f:
-                    f.write(data[:k])
+                if hasattr(path, "write"):          # the writer was handed an open file instead of a name
+                    path.write(data[:k])
+                    path.flush()
+                else:
+                    with open(path, "wb") as f:
+                        f.write(data[:k])
                 raise Crash()
             r = real(*args, **kwargs)
             raise Crash()
